@@ -217,6 +217,7 @@ def check_loop(ctx, case):
     gate_pos = [i for i, s in enumerate(specs) if gen.is_gate_spec(s)]
     c = gen.build_circuit(n, 1, specs)
     before = list(c.ir.statements)
+    ref = list(gen.build_circuit(n, 1, specs).ir.statements)      # independent of objects the pass may mutate
     kth = before[gate_pos[k]]
     if mode == "wrong" and type(kth).__name__ == "BlochSphereRotation" and \
             oracles.phase_dist(oracles.gate_small(kth)[0], oracles.STD1["H"]) < 1e-3:
@@ -260,7 +261,7 @@ def check_loop(ctx, case):
             ctx.oracle_fail("loop", case, f"ill-formed statement after the failure: {s!r}", eq)
             break
     else:
-        ok, why = oracles.kraus_equivalent(before, after, 2e-6 * (1 + len(after)))
+        ok, why = oracles.kraus_equivalent(ref, after, 2e-6 * (1 + len(after)))
         if not ok:
             ctx.oracle_fail("loop", case, "after the rejected proposal the circuit is not equivalent to the original: " + why, eq)
         # the suffix is untouched (same objects)
